@@ -70,6 +70,8 @@ fn gen_mapping(rng: &mut Rng, uses_time: bool) -> Vec<(String, Map)> {
         ("origin".into(), Map::Optional(Box::new(Map::Path("request.origin_vertex".into())))),
         ("sum_edges_iter".into(), Map::Sum(vec![Map::Optional(Box::new(Map::Path("route_edges".into()))), Map::Optional(Box::new(Map::Path("iterations".into())))])),
         ("variant".into(), Map::Optional(Box::new(Map::Path("request.variant".into())))),
+        // a sum of which one part resolves on every success and the other never does: the whole cell is an error (empty)
+        ("sum_partial".into(), Map::Sum(vec![Map::Path("route_edges".into()), Map::Path("request.no_such_number".into())])),
         ("note".into(), Map::Optional(Box::new(Map::Path("request.note".into())))),
         // an array-valued path (the edge id list) and an object-valued one: their JSON text holds commas and quotes
         ("path".into(), Map::Optional(Box::new(Map::Path("route.path".into())))),
